@@ -341,6 +341,7 @@ func registerAll() {
 	ev.Register("json", judged)
 	ev.Register("keys", oracle)
 	ev.Register("deep", oracle)
+	ev.Register("surrogates", oracle)
 	ev.Register("json-after-prelude", judged)
 }
 
@@ -430,6 +431,40 @@ func TestPropKeys(t *testing.T) {
 	ev.Exhaustive("keys", fmt.Sprintf("every string of <= %d symbols over %q as object key, array item, root value and nested key+value", ev.N(2, 3), alpha))
 	if bad > 0 {
 		t.Errorf("VIOLATION-CANDIDATE keys: %d", bad)
+	}
+}
+
+// every pairing of the border halves of escaped surrogate pairs, in both letter cases, against the same
+// character written raw
+func TestPropSurrogates(t *testing.T) {
+	registerAll()
+	ev.KeepFirst("surrogates")
+	var n, bad int64
+	highs := []int{0xd800, 0xd801, 0xd83d, 0xd83c, 0xdbfe, 0xdbff}
+	lows := []int{0xdc00, 0xdc01, 0xdd00, 0xde00, 0xdffe, 0xdfff}
+	for _, h := range highs {
+		for _, l := range lows {
+			r := rune((h-0xd800)<<10 + (l - 0xdc00) + 0x10000)
+			for _, f := range []string{"\\u%04x\\u%04x", "\\u%04X\\u%04X", "\\u%04x\\u%04X"} {
+				esc := fmt.Sprintf(f, h, l)
+				for _, tpl := range []string{`"%s"`, `{"%s": 1}`, `["a%sb"]`, `{"k": "%s%s"}`, `{"%s": "%s"}`} {
+					raw := strings.ReplaceAll(tpl, "%s", string(r))
+					c := Case{Layouts: []string{raw, strings.ReplaceAll(tpl, "%s", esc)}}
+					n++
+					if v := oracle(c); v != nil && ev.Report("surrogates", c, v) {
+						bad++
+					} else if n%61 == 0 {
+						ev.Sample("surrogates", c)
+					}
+				}
+			}
+		}
+	}
+	ev.Count("surrogates", n)
+	ev.NonTrivialEnum("surrogates", n)
+	ev.Exhaustive("surrogates", fmt.Sprintf("%d high halves x %d low halves (first, second, last of each range and the usual emoji rows), three letter-case spellings, five places; each compared with the raw character", len(highs), len(lows)))
+	if bad > 0 {
+		t.Errorf("VIOLATION-CANDIDATE surrogates: %d", bad)
 	}
 }
 
